@@ -49,11 +49,19 @@
  * per-se), kick it after 10 loops waiting for it.
  */
 #define KICK_READER_LOOPS 	10
+#ifdef URCU_VERIF_KICK_READER_LOOPS
+#undef KICK_READER_LOOPS
+#define KICK_READER_LOOPS URCU_VERIF_KICK_READER_LOOPS
+#endif
 
 /*
  * Active attempts to check for reader Q.S. before calling futex().
  */
 #define RCU_QS_ACTIVE_ATTEMPTS 100
+#ifdef URCU_VERIF_RCU_QS_ACTIVE_ATTEMPTS
+#undef RCU_QS_ACTIVE_ATTEMPTS
+#define RCU_QS_ACTIVE_ATTEMPTS URCU_VERIF_RCU_QS_ACTIVE_ATTEMPTS
+#endif
 
 /* If the headers do not support membarrier system call, fall back on RCU_MB */
 #ifdef __NR_membarrier
